@@ -261,7 +261,8 @@ def run(ctx):
                         got_.append(order_[r_.idx] if isinstance(r_, _Ord) else repr(r_))
                     at_eval = (got_ == list(comps) and order_ == list(comps), got_)
                 except (_PUa, _PFa) as e_:
-                    at_eval = None
+                    from peval import Thrown as _PTa
+                    at_eval = (False, got_ + ['throws %s' % e_.etype if isinstance(e_, _PTa) else 'faults']) if isinstance(e_, (_PTa, _PFa)) else None
             if atf is not None and at_eval is not None:
                 ctx.check(at_eval[0], R, lab0 + '|at|array-view', atf, 'at(i) yields component i for i = 0..%d (%s)' % (n - 1, ', '.join(comps)),
                           'at(i) yields %s for i = 0..%d; the components are %s' % (at_eval[1], n - 1, list(comps)))
